@@ -497,7 +497,6 @@ theorem bindFrom_keys {α : Type} (pos : List α) (kws : List (Name × α)) :
 theorem bindArgs_keys {α : Type} (params : List Name) (args : List (Option Name × α)) (bound : List (Name × α))
     (h : bindArgs params args = some bound) : bound.map (·.1) = params := by
   unfold bindArgs at h
-  simp only at h
   split at h
   · exact bindFrom_keys _ _ _ _ _ h
   · exact absurd h (by simp)
@@ -534,21 +533,20 @@ theorem bindFrom_mem {α : Type} (pos : List α) (kws : List (Name × α)) :
 theorem bindArgs_mem {α : Type} (params : List Name) (args : List (Option Name × α)) (bound : List (Name × α))
     (h : bindArgs params args = some bound) : ∀ xa, xa ∈ bound → ∃ k, (k, xa.2) ∈ args := by
   unfold bindArgs at h
-  simp only at h
   split at h
   · intro xa hxa
     rcases bindFrom_mem _ _ _ _ _ h xa hxa with h1 | ⟨kv, h1, h2⟩
     · obtain ⟨ka, hka, hm⟩ := List.mem_filterMap.mp h1
       obtain ⟨k, a⟩ := ka
       cases k with
-      | none => simp at hm; exact ⟨none, hm ▸ hka⟩
-      | some n => simp at hm
+      | none => simp [posOf] at hm; exact ⟨none, hm ▸ hka⟩
+      | some n => simp [posOf] at hm
     · obtain ⟨ka, hka, hm⟩ := List.mem_filterMap.mp h1
       obtain ⟨k, a⟩ := ka
       cases k with
-      | none => simp at hm
+      | none => simp [kwOf] at hm
       | some n =>
-        simp at hm
+        simp [kwOf] at hm
         subst hm
         exact ⟨some n, h2 ▸ hka⟩
   · exact absurd h (by simp)
